@@ -802,8 +802,8 @@ func (w *World) Crash() {
 // Quiesce executes pending submissions oldest first, all OK, until none is left.
 func (w *World) Quiesce() {
 	for i := 0; len(w.aio.pending) > 0; i++ {
-		if i > 100000 {
-			panic("verif: quiesce did not terminate")
+		if i > 3000 {
+			panic("verif: quiesce did not terminate (a request or sweep keeps issuing submissions)")
 		}
 		w.Exec(0, OK)
 	}
